@@ -120,6 +120,9 @@ def run_impl(spec):
     tag, clf, card, air = activate(spec)
     if tag is None:
         raise RuntimeError('activation of a well-formed Type 4 target was refused: %r' % {k: v for k, v in spec.items() if k != 'items'})
+    if hasattr(tag._dep, 'max_extra_blocks') and spec.get('max_extra') is not None:
+        tag._dep.max_extra_blocks = spec['max_extra']      # a small budget makes "card exceeds the budget" cheap to exercise
+    spec['max_extra_eff'] = getattr(tag._dep, 'max_extra_blocks', 10 ** 9)
     obs = []
     for it in spec['items']:
         card.plan = [list(p) for p in it['plan']]
@@ -144,6 +147,7 @@ def plan_str(plan):
 def model_line(spec, flags, tag):
     # reader parameters as the tag object holds them (their derivation is compared separately: 'params')
     miu, nnak, nack = tag._dep.miu, tag._dep.n_retry_nak, tag._dep.n_retry_ack
+    mx = str(tag._dep.max_extra_blocks) if hasattr(tag._dep, 'max_extra_blocks') else '-'
     items = []
     for it in spec['items']:
         if it['kind'] == 'T':
@@ -151,7 +155,7 @@ def model_line(spec, flags, tag):
         else:
             items.append('A%d:%s:%s:%s:%s' % (it['check'], ','.join(map(str, it['hdr'])), it['data'] or '-',
                                                it['script'] or '-', plan_str(it['plan'])))
-    return 'sess %d %d %d %s %d %d %d %s' % (miu, nnak, nack, flags, FSC[min(spec['fsci'], 8)], spec['cmiu'], LIMIT, ' '.join(items))
+    return 'sess %d %d %d %s %s %d %d %d %s' % (miu, nnak, nack, flags, mx, FSC[min(spec['fsci'], 8)], spec['cmiu'], LIMIT, ' '.join(items))
 
 
 def impl_line(obs, state):
@@ -295,7 +299,12 @@ def monitor(ck, spec, obs, card):
             if len(b) + 2 > cfsc:
                 ck.violation(pre + 'block-too-long', 'a block of %d bytes (+2 EDC) exceeds the card frame size %d' % (len(b), cfsc), data)
                 break
-        if synced and absorbable(o['blocks'], o['consumed'], budget):
+        # S(WTX) requests + chained response blocks (+ one repeated S(WTX) per faulty round) within max_extra_blocks
+        nfault = sum(1 for f in o['consumed'] if f != ('D', 'D'))
+        rlen = len(resp[0]) if resp else 0
+        extra = sum(len(p_) for p_ in it['plan']) + max(0, -(-rlen // spec['cmiu']) - 1) + nfault
+        within = extra <= spec.get('max_extra_eff', 65538)
+        if synced and within and absorbable(o['blocks'], o['consumed'], budget):
             if not (len(new) == 1 and res == expected(it, resp[0])):
                 ck.violation('unabsorbed:' + ctx, 'a fault pattern within the retry budget (or no fault at all) was not absorbed: %s' % res, data)
         earlier += resp
@@ -359,7 +368,7 @@ def main():
                       'malformed answers and an S(WTX) block without WTXM byte are C08 (Model/TagAct.v, Model/TagReadAnyB.v)']
     ck.coq(gen=['IsoDepK'],
            targets=['Proofs/IsoDep.vo', 'Proofs/IsoDepSync.vo', 'Proofs/IsoDepLegacy.vo', 'Proofs/IsoDepApdu.vo',
-                    'Proofs/IsoDepStream.vo', 'Proofs/IsoDepSession.vo', 'Bridge/IsoDep.vo'], props='C12')
+                    'Proofs/IsoDepBudget.vo', 'Proofs/IsoDepStream.vo', 'Proofs/IsoDepSession.vo', 'Bridge/IsoDep.vo'], props='C12')
     mr = ck.model()
     if mr is None:
         ck.finish()
@@ -445,6 +454,17 @@ def main():
                         items = ([T(bytes([0xFF, 0, 0, 1]))] if warm else []) + [T(raw_apdu(rng, cl, rl), sc, pl)]
                         add('exhaustive', spec_of(fsci=0, fwi=fwi, cmiu=13, items=items))
 
+        # ---- the shared budget of S(WTX) requests and chained response blocks (HEAD: max_extra_blocks), patched small
+        for mxv in (0, 1, 2, 3, 4, 6):
+            for cl, rl, pl in ((4, 5, []), (4, 5, [[7]]), (4, 5, [[7, 8]]), (4, 20, []), (4, 40, []), (4, 40, [[], [3], [4]]), (20, 30, [[1], [2], [3]]),
+                               (30, 5, [[1], [1], [1, 1]]), (4, 60, [[], [], [], [9]])):
+                nominal = nblocks(cl, 13) + nblocks(rl, 13) - 1 + sum(len(p_) for p_ in pl)
+                for sc in fault_scripts(nominal + 2, 1 if quick else 2, FAULTS):
+                    for warm in (0, 1):
+                        items = ([T(bytes([0xFF, 0, 0, 1]))] if warm else []) + [T(raw_apdu(rng, cl, rl), sc, pl)]
+                        sp = spec_of(fsci=0, fwi=4, cmiu=13, items=items)
+                        sp['max_extra'] = mxv
+                        add('budget', sp)
         # ---- random sessions
         for _ in range(6000 if quick else 150000):
             fsci = rng.choice([0, 0, 1, 2, 3, 4, 5, 6, 7, 8, rng.randrange(16)])
@@ -566,10 +586,13 @@ def main():
                     'f20102', '', 'T', 'E', 'P', 'c2', '0a00aa', 'aa', '22']
         streams = [[x] for x in alphabet] + [[x, y] for x in ('f201', '12aa', 'a3', 'T', 'E', '02aa') for y in alphabet]
         streams += [['12aa', 'f201', y] for y in alphabet] + [['f201', 'f201', y] for y in alphabet]
+        streams += [['12aa', '13bb', '12cc', '03dd'], ['f201', 'f202', 'f203', '0290'], ['12aa', 'f201', '13bb', 'f201', '02cc'],
+                    ['f201', '12aa', 'T', 'f201', '03bb'], ['12aa', '13bb', 'T', '12cc', '03dd']]
         for _ in range(1500 if quick else 20000):
             streams.append([rng.choice(alphabet) for _ in range(rng.randrange(1, 8))])
         for st in streams:
-            for cmdhex, fwt, nretry in (('00a40000', 0.3, 3), ('00a4040007d276000085010100', 2.0, 0), ('00a4040007d276000085010100', 0.6, 1)):
+            for cmdhex, fwt, nretry, mxv in (('00a40000', 0.3, 3, None), ('00a4040007d276000085010100', 2.0, 0, 1),
+                                             ('00a4040007d276000085010100', 0.6, 1, 2), ('00a40000', 0.3, 3, 0)):
                 rsps = [nfc.clf.TimeoutError if x == 'T' else nfc.clf.TransmissionError if x == 'E' else nfc.clf.ProtocolError if x == 'P'
                         else bytes.fromhex(x) for x in st]
 
@@ -588,8 +611,12 @@ def main():
                         return bytearray(r)
                 dep = nfc.tag.tt4.IsoDepInitiator(Clf(), 16, fwt)
                 assert dep.n_retry_nak == nretry
+                mxs = '-'
+                if hasattr(dep, 'max_extra_blocks'):
+                    dep.max_extra_blocks = mxv if mxv is not None else dep.max_extra_blocks
+                    mxs = str(dep.max_extra_blocks)
                 got = res_string(lambda: dep.exchange(bytearray.fromhex(cmdhex)))
-                str_lines.append('stream 13 %d %d %s 60 %s %s T' % (nretry, nretry, flags, cmdhex, ' '.join(x or '-' for x in st)))
+                str_lines.append('stream 13 %d %d %s %s 60 %s %s T' % (nretry, nretry, flags, mxs, cmdhex, ' '.join(x or '-' for x in st)))
                 str_expect.append(got)
                 ck.case(('stream', tuple(st), cmdhex, nretry), True)
                 ck.count('reader-vs-scripted-answers')
@@ -621,7 +648,7 @@ def main():
     dep = nfc.tag.tt4.IsoDepInitiator(clf, 16, 0.3)
     r = res_string(lambda: dep.exchange(bytearray(b'\x00\xa4\x00\x00')))
     ck.count('info-rack-loop-unbounded' if r == 'hang' else 'info-rack-loop-bounded')
-    got = mr.run(['stream 13 3 3 %s 12 00a40000 a3' % flags])[0]
+    got = mr.run(['stream 13 3 3 %s - 12 00a40000 a3' % flags])[0]
     if (got == 'hang') != (r == 'hang'):
         ck.correspondence_mismatch('rack-stream', {'impl': r, 'model': got})
 
